@@ -312,7 +312,7 @@ impl LuaDocLexer<'_> {
             }
             ch if ch == '"' || ch == '\'' => {
                 reader.bump();
-                eat_string_body(reader, ch);
+                reader.eat_while(|c| c != ch);
                 if reader.current_char() == ch {
                     reader.bump();
                 }
@@ -637,7 +637,7 @@ impl LuaDocLexer<'_> {
             }
             ch if ch == '"' || ch == '\'' => {
                 reader.bump();
-                eat_string_body(reader, ch);
+                reader.eat_while(|c| c != ch);
                 if reader.current_char() == ch {
                     reader.bump();
                 }
@@ -918,20 +918,5 @@ mod tests {
         let text = lexer.origin_text[range.start_offset..range.end_offset()].to_string();
         assert_eq!(text, " comment");
         assert_eq!(k2, LuaTokenKind::TkDocTrivia);
-    }
-}
-
-/// Consume the body of a quoted doc string up to (not including) the closing quote. A backslash
-/// escapes the next character, so `"a\"b"` is one literal, as in Lua source.
-fn eat_string_body(reader: &mut Reader, quote: char) {
-    while !reader.is_eof() {
-        let ch = reader.current_char();
-        if ch == quote {
-            break;
-        }
-        reader.bump();
-        if ch == '\\' && !reader.is_eof() {
-            reader.bump();
-        }
     }
 }
